@@ -1,4 +1,4 @@
-import JadeModel.Proofs.SystemUniqueCDefs
+import JadeModel.Proofs.SystemUniqueDefs
 
 set_option linter.unusedSimpArgs false
 
@@ -8,7 +8,7 @@ set_option maxHeartbeats 64000000 in
 theorem plainC_step_a {s s' : Sys} {op : Op} (hn : NodeInv s) (ha : PlainA s) (hb : PlainB s) (hi : PlainC s)
     (h : step s op = some s') (hf : op.risky = false) :
     (∀ p a n, s'.procs p = .node a n → ∀ j ∈ n.queued, ¬ HasRow s' j) ∧
-    (∀ p a n, s'.procs p = .node a n → ∀ j ∈ n.running, ¬ HasRow s' j) := by
+    (UniqF s'.processed s'.nodeFile) := by
   have hu := @node_job_unique s hn
   have hm := @mem_unique_batch s.batches hn.batch.jobsNodup
   obtain ⟨⟨⟨r1, r2, r3, r4, r5⟩, l1, l2, l3, -, -, -, -⟩, n1, n2, n3, n4, n5, n6, n7, n8⟩ := hn
